@@ -189,6 +189,7 @@ pub proof fn lemma_step_marker_shape(rc: Rc, m: LzS, w: Win)
         _ => true,
     },
 {
+    reveal(sp_step_match);
     let pos_state: nat = w.hist % pow2(m.pb);
     let i_match: nat = m.state * 16 + pos_state;
     lemma_repl_step(rc, m, w, true, rc.inp);
